@@ -397,6 +397,7 @@ namespace hv
         unsigned long long seed = 1;
         int solo = 1;
         bool use_tape = false, emit_tape = false;
+        int instr = 0;
         std::vector<long long> tape;
         {
             std::istringstream in(all.text);
@@ -414,6 +415,7 @@ namespace hv
                     continue;
                 }
                 if (line.rfind("emit_simtape", 0) == 0) { emit_tape = true; continue; }
+                if (line.rfind("instr ", 0) == 0) { instr = std::stoi(line.substr(6)); continue; }
                 if (line.rfind("solo ", 0) == 0) { solo = std::stoi(line.substr(5)); continue; }
                 if (!texts.empty()) { texts.back() += line; texts.back() += "\n"; }
             }
@@ -442,6 +444,7 @@ namespace hv
         cfg.use_tape    = use_tape;
         cfg.tape        = tape;
         cfg.record_tape = emit_tape;
+        cfg.instr_interval = instr;
         sim::configure(cfg);
         sim::set_log(false);
         for (auto &j : jobs)
@@ -459,7 +462,7 @@ namespace hv
             Line("tape").i("n", static_cast<long long>(sim::tape_record().size())).str("v", tp).emit();
         }
         Line("end").str("run", "done").i("steps", sim::stats().steps).i("preemptions", sim::stats().preemptions).i("mutex_blocks", sim::stats().mutex_blocks)
-            .str("trace_hash", std::to_string(sim::trace_hash())).emit();
+            .i("instr_points", sim::stats().instr_points).str("trace_hash", std::to_string(sim::trace_hash())).emit();
         return 0;
     }
 }  // namespace hv
